@@ -63,7 +63,7 @@ func runControl(id string, c Control, base map[string]bool) (res ControlResult) 
 	p := LoadProgram(repoDir(), ov, "", "")
 	r := NewReport(id, "control")
 	r.cur = p.Config
-	registry[id].run(p, r)
+	runProp(id, p, r)
 	for _, o := range r.Obligs {
 		if o.Status != "ok" && o.Rule == c.Rule && strings.Contains(o.Key, c.Expect) && !base[o.Rule+"\x00"+o.Key+"\x00"+o.Status] {
 			res.Result = "fired"
@@ -79,7 +79,7 @@ func baselineNonOK(id string) map[string]bool {
 	p := LoadProgram(repoDir(), nil, "", "")
 	r := NewReport(id, "control")
 	r.cur = p.Config
-	registry[id].run(p, r)
+	runProp(id, p, r)
 	base := map[string]bool{}
 	for _, o := range r.Obligs {
 		if o.Status != "ok" {
@@ -119,10 +119,10 @@ func runSelftest(prop string) int {
 	bad := 0
 	for _, id := range ids {
 		pc := registry[id]
-		if pc == nil || pc.controls == nil {
+		if pc == nil || len(controlsOf(id)) == 0 {
 			continue
 		}
-		for _, res := range runControls(id, pc.controls()) {
+		for _, res := range runControls(id, controlsOf(id)) {
 			fmt.Printf("control %s %-8s %s [%s] %s\n", id, res.Result, res.Name, res.Rule, res.Detail)
 			if res.Result == "silent" || res.Result == "broken" {
 				bad++
